@@ -429,7 +429,8 @@ func (z *Zipper) compareOps(a, b ssa.Instruction) bool {
 		return types.Identical(iA.Type(), iB.Type())
 	case *ssa.MakeInterface:
 		iB := b.(*ssa.MakeInterface)
-		return types.Identical(iA.Type(), iB.Type())
+		// the type of the boxed value is the dynamic type of the result
+		return types.Identical(iA.Type(), iB.Type()) && types.Identical(iA.X.Type(), iB.X.Type())
 	case *ssa.TypeAssert:
 		iB := b.(*ssa.TypeAssert)
 		return types.Identical(iA.AssertedType, iB.AssertedType) && iA.CommaOk == iB.CommaOk
